@@ -54,6 +54,40 @@ def alphabet():
     return ops
 
 
+def scenarios():
+    """provider / consumer histories: what a consumer sees depends on WHEN it imported, on what it had bound before,
+    and on whether it imports again - every combination of the optional steps"""
+    import itertools
+    guard = lambda e: [S("handler-bind"), [[S("condition"), [S("lambda"), [S("c"), S("&rest"), S("r")], [S("probe"), Q(S("err")), S("c")], Q(S("e"))]]], e]
+    out = []
+    for prov, cons in (("p1", "user"), ("p1", "p2"), ("user", "p1")):
+        for pre_bound, export_first, redefine, reimport, local_set, fun in itertools.product([False, True], repeat=6):
+            h = [[S("in-package"), Q(S(prov))]]
+            define = [S("defun"), S("x"), [], Q(S("v1"))] if fun else [S("set"), Q(S("x")), 1]
+            h += [[S("export"), Q(S("x"))], define] if export_first else [define, [S("export"), Q(S("x"))]]
+            h.append([S("in-package"), Q(S(cons))])
+            if pre_bound:
+                h.append([S("set"), Q(S("x")), 40])
+            h.append(guard([S("use-package"), Q(S(prov))]))
+            ref = guard([S("probe"), Q(S("ref")), [S("x")] if fun else S("x")])
+            h.append(ref)
+            if redefine:
+                h += [[S("in-package"), Q(S(prov))], [S("defun"), S("x"), [], Q(S("v2"))] if fun else [S("set"), Q(S("x")), 2], [S("in-package"), Q(S(cons))]]
+                h.append(ref)
+            if reimport:
+                h.append(guard([S("use-package"), Q(S(prov))]))
+                h.append(ref)
+            if local_set:
+                h.append(guard([S("set"), Q(S("x")), 77] if not fun else [S("defun"), S("x"), [], Q(S("local"))]))
+                h.append(ref)
+                h.append(guard([S("probe"), Q(S("provider-still")), [S("%s:x" % prov)] if fun else S("%s:x" % prov)]))
+                if reimport:
+                    h.append(guard([S("use-package"), Q(S(prov))]))
+                    h.append(ref)
+            out.append(h)
+    return out
+
+
 def run(tier):
     V = Verdict("C08", tier)
     work = Work("C08")
@@ -73,6 +107,8 @@ def _run(V, work, tier):
         hist = hist[:len(A)] + rnd.sample(hist[len(A):], 700)
     for _ in range(6000 if thorough else 900):
         hist.append([rnd.choice(A) for _ in range(rnd.randrange(4, 10))])
+    sc = scenarios()
+    hist += sc if thorough else rnd.sample(sc, 90)
     recs, drv = [], []
     tail = [[S("probe"), Q(S("end"))]]
     for i, h in enumerate(hist):
